@@ -29,8 +29,9 @@ TRUSTED = [
     "tabulates n -> int(ceil(n * t)) with the same Python float arithmetic; the model receives these integer tables "
     "(the theorems hold for arbitrary tables); IEEE arithmetic and math.ceil are trusted. If the implementation's "
     "result differs from the model's in this mode it is still accepted when the verified checker conv_check "
-    "(conv_check_correct: sound and complete for ValidConversion) accepts it and the counters are consistent, "
-    "because the property claims no category sizes for relative truncators",
+    "(conv_check_correct: sound and complete for ValidConversion) accepts it, every empty category is trailing "
+    "(trailing_ok_correct / fo_empty_categories_trailing) and the counters are consistent, because the property "
+    "claims no category sizes for relative truncators",
 ]
 ASSUMPTIONS = [
     "source instances are non-empty, orders are non-empty tuples of non-empty classes of non-negative integer ids, "
@@ -333,8 +334,10 @@ def oracle_requests(c, r):
 def _relative_fallback(c, ri, mres):
     """the implementation's result differs from the model's in the relative mode: accept it iff it is a valid
     conversion (verified checker) with consistent counters"""
-    if len(mres) < 2 or mres[1] != 1:
+    if len(mres) < 2 or mres[1][0] != 1:
         return "not a valid conversion of the source (conv_check = false)"
+    if mres[1][1] != 1:
+        return "an empty category is followed by a non-empty one (trailing_ok = false)"
     src = c["payload"][2]
     if ri[2] != sum(m for _, m in src):
         return "num_voters %r, source has %r voters" % (ri[2], sum(m for _, m in src))
